@@ -84,7 +84,15 @@ let eval inp obs =
     if List.length fids <= k then (st := s0; rq0)
     else begin
       match next_pass_time i with
-      | None -> st := s0; rq0
+      | None ->
+        (* no later pass was observed: the map order that gives the latest due time is the one
+           that asks least of the implementation *)
+        let best = ref (s0, rq0) in
+        let due_of s = (match timer_due s with Some d -> int_of_zc d | None -> min_int) in
+        List.iter (fun x ->
+          let (s1, rq1) = step true cfg base (zz t) (mk [x]) in
+          if due_of s1 > due_of (fst !best) then best := (s1, rq1)) fids;
+        st := fst !best; snd !best
       | Some tp ->
         let best = ref (s0, rq0) and bestd = ref max_int in
         List.iter (fun x ->
